@@ -186,9 +186,18 @@ func VerifH_C09_charAt() {
 	}
 }
 
+func verifNonASCII(s string) bool {
+	for i := 0; i < len(s); i++ {
+		if s[i] >= 0x80 {
+			return true
+		}
+	}
+	return false
+}
+
 func VerifH_C09_indexOf() {
 	vm := New()
-	_, u := verifSubject(vm)
+	s, u := verifSubject(vm)
 	m := verifChoose(2)
 	t := verifNondetString(m)
 	verifAssume(verifValidUTF8(t))
@@ -220,7 +229,7 @@ func VerifH_C09_indexOf() {
 		v, ok := verifRun(vm, "s.indexOf(t, p)")
 		if ok {
 			f, _ := v.ToFloat()
-			verifAssert(f == float64(want), "ES5 15.5.4.7 indexOf")
+			verifAssertK(f == float64(want), "C09-indexof-byte-offsets", verifNonASCII(s), "ES5 15.5.4.7 indexOf")
 		}
 	} else {
 		var start int
@@ -239,7 +248,7 @@ func VerifH_C09_indexOf() {
 		v, ok := verifRun(vm, "s.lastIndexOf(t, p)")
 		if ok {
 			f, _ := v.ToFloat()
-			verifAssert(f == float64(want), "ES5 15.5.4.8 lastIndexOf")
+			verifAssertK(f == float64(want), "C09-indexof-byte-offsets", verifNonASCII(s), "ES5 15.5.4.8 lastIndexOf")
 		}
 	}
 }
